@@ -9,9 +9,15 @@ use wasm_bindgen::{JsCast, JsValue};
 #[cfg(all(target_arch = "wasm32", not(test)))]
 use wasm_bindgen_futures::JsFuture;
 
+#[cfg(not(kani))]
 use std::{
     collections::HashMap,
     fmt::{Display, Formatter},
+};
+#[cfg(kani)]
+use {
+    crate::helpers::vmap::HashMap,
+    std::fmt::{Display, Formatter},
 };
 
 use crate::auto::generated::SupportedMnemonic;
